@@ -90,7 +90,7 @@ def e1_events(P, fn, cache={}):
         return cache[fn]
     M = absint.Machine(P, max_depth=1, loop_limit=1, max_paths=20000)
     M.havoc_loops = True
-    res = {"reached": set(), "may": set(), "capped": False, "error": None}
+    res = {"reached": set(), "may": set(), "modelled": set(), "opaque": set(), "capped": False, "error": None}
     try:
         paths = M.explore(fn, M.arg_unknowns(fn))
     except Exception as e:       # an engine failure on one function must not hide sites: nothing is discharged for it
@@ -102,6 +102,15 @@ def e1_events(P, fn, cache={}):
         for (k, bb) in p.trace:
             if k == fn:
                 res["reached"].add(bb)
+        seen_here = set()
+        for ev in p.events:
+            if ev[0] == 'modelled' and ev[1][0] == fn:
+                seen_here.add(ev[1][1])
+        res["modelled"] |= seen_here
+        # a call site that some path passed without the summary deciding it was decided by nobody on that path
+        for (k, bb) in p.trace:
+            if k == fn and bb not in seen_here:
+                res["opaque"].add(bb)
         for ev in p.events:
             if ev[0] == 'may-panic' and ev[2] == fn:
                 res["may"].add(ev[3])
@@ -115,10 +124,17 @@ def discharge_by_guard(P, site):
     r = e1_events(P, site.fn)
     if r["error"] or r["capped"]:
         return False, "analysis of %s incomplete (%s)" % (site.fn, r["error"] or "path cap / unsupported construct")
+    if site.kind == "panic":
+        # an explicit panic is safe only if no feasible path gets there
+        if site.bb in r["reached"]:
+            return False, "a feasible path of %s reaches the panic" % site.fn.split("::")[-1]
+        return True, "unreachable: no feasible path of the (completely explored) function reaches it"
     if site.bb not in r["reached"]:
         return False, "site not reached by the explored paths"
     if site.bb in r["may"]:
         return False, "the failing case is feasible under the guards in front of the site"
+    if site.kind != "arith" and (site.bb not in r["modelled"] or site.bb in r["opaque"]):
+        return False, "the operation is not modelled by the interpreter on some path (receiver or index not readable), so nothing excludes its failing case"
     return True, "guarded: on every explored path reaching the site the failing case is excluded by the preceding checks"
 
 
